@@ -172,7 +172,7 @@ def _kill_fat_cbmc(pgid, cap_kb, lf):
             mine.append((rss, pid))
     fat = max(mine) if mine else None
     for rss, pid in mine:
-        low_mem = avail_kb < 5 * 1024 * 1024 and fat and pid == fat[1] and rss > 1024 * 1024
+        low_mem = avail_kb < 3 * 1024 * 1024 and fat and pid == fat[1] and rss > 4 * 1024 * 1024
         if rss > cap_kb or low_mem:
             try:
                 os.kill(pid, signal.SIGKILL)
